@@ -89,14 +89,100 @@ class C10(E1Check):
             p["sigsets"] = sigsets
         progs.append({"reuse": True})
         progs.append({"equal_owners": True})
+        progs.append({"scenario": "copy"})
+        progs.append({"scenario": "owner-gone"})
         return progs
 
     def work(self, unit: Any, tier: str) -> dict:
+        if isinstance(unit, dict) and unit.get("scenario"):
+            return self.scenario_unit(unit)
         if isinstance(unit, dict) and unit.get("reuse"):
             return self.reuse_unit()
         if isinstance(unit, dict) and unit.get("equal_owners"):
             return self.equal_owners_unit()
         return super().work(unit, tier)
+
+    def scenario_unit(self, unit: dict) -> dict:
+        """copy: a shallow copy of an owner (made after its signals were first used) is a dispatching instance of its own;
+        owner-gone: events dispatched through a kept bound signal after its owner has been collected still reach the subscribers."""
+        import copy as _copy
+        import gc
+
+        from ..explore import new_summary
+
+        fails: list = []
+
+        async def main() -> None:
+            from asphalt.core import Event, Signal, wait_event
+
+            @dataclass
+            class Ev(Event):
+                n: int
+
+            class Src:
+                a = Signal(Ev)
+
+            async def consume(stream: Any, sink: list) -> None:
+                async for ev in stream:
+                    sink.append(ev)
+
+            if unit["scenario"] == "copy":
+                src = Src()
+                first = src.a
+                got_o: list = []
+                got_c: list = []
+                async with src.a.stream_events() as so:
+                    cp = _copy.copy(src)
+                    if cp.a is first:
+                        fails.append(("copy", "a shallow copy of an owner shares the original's bound signal"))
+                    async with cp.a.stream_events() as sc:
+                        async with anyio.create_task_group() as tg:
+                            tg.start_soon(consume, so, got_o)
+                            tg.start_soon(consume, sc, got_c)
+                            await anyio.wait_all_tasks_blocked()
+                            e1, e2 = Ev(1), Ev(2)
+                            cp.a.dispatch(e1)
+                            src.a.dispatch(e2)
+                            await anyio.wait_all_tasks_blocked()
+                            tg.cancel_scope.cancel()
+                if e1.source is not cp or e2.source is not src:
+                    fails.append(("copy", f"events dispatched on the copy / the original carry sources {e1.source!r} / {e2.source!r}"))
+                if [e.n for e in got_c] != [1] or [e.n for e in got_o] != [2]:
+                    fails.append(("copy", f"the copy's subscriber received {[e.n for e in got_c]} (expected [1]), the original's {[e.n for e in got_o]} (expected [2])"))
+            else:
+                src = Src()
+                sig = src.a
+                got: list = []
+                waited: list = []
+
+                async def wait_one() -> None:
+                    waited.append((await wait_event([sig])).n)
+
+                async with sig.stream_events() as st_:
+                    async with anyio.create_task_group() as tg:
+                        tg.start_soon(consume, st_, got)
+                        tg.start_soon(wait_one)
+                        await anyio.wait_all_tasks_blocked()
+                        del src
+                        gc.collect()
+                        sig.dispatch(Ev(7))
+                        await anyio.wait_all_tasks_blocked()
+                        tg.cancel_scope.cancel()
+                if [e.n for e in got] != [7] or waited != [7]:
+                    fails.append(("owner-gone", f"an event dispatched after the owner had been collected: stream received {[e.n for e in got]}, wait_event returned {waited}"))
+
+        try:
+            anyio.run(main)
+        except BaseException as e:  # noqa: BLE001
+            fails.append((unit["scenario"], f"scenario raised {e!r}"))
+        s = new_summary()
+        s["evaluations"] = s["transitions"] = s["states"] = s["distinct"] = s["nontrivial"] = 1
+        s["outcomes"] = {"done": 1}
+        if fails:
+            s["violations"].append({"keys": sorted({f[0] for f in fails}), "fails": [list(f) for f in fails], "program": dict(unit), "choices": [], "trace": [],
+                                    "outcome": "done"})
+            s["keyhist"] = {fails[0][0]: 1}
+        return s
 
     def equal_owners_unit(self) -> dict:
         from dataclasses import dataclass as _dc
@@ -147,6 +233,13 @@ class C10(E1Check):
         return summary_for("signal", "C10")
 
     def replay(self, rec: dict) -> Any:
+        if rec.get("program", {}).get("scenario"):
+            s = self.scenario_unit(rec["program"])
+            for v in s["violations"]:
+                for f in v["fails"]:
+                    print("FAIL", f[0], "-", f[1])
+            print(f"VIOLATION property=C10 replay={rec.get('_path', '')}" if s["violations"] else "no violation on this tree")
+            return 1 if s["violations"] else 0
         if rec.get("program", {}).get("equal_owners"):
             s = self.equal_owners_unit()
             for v in s["violations"]:
